@@ -47,6 +47,8 @@ def build_engine(timeout_ms: int = 10000) -> Engine:
             if parts[-1] == "__init__":
                 parts = parts[:-1]
             repo._load_module(".".join(parts), path)
+    import maus.models.edifact_components as _mc
+    repo.load_external("maus.models.edifact_components", Path(_mc.__file__))
     ex = Engine(repo, contracts=REGISTRY, library=dict(assumed.LIBRARY), timeout_ms=timeout_ms)
     ex.attr_library = dict(assumed.ATTR_LIBRARY)
     ex.class_fields_hook = dict(assumed.CLASS_HOOKS)
@@ -132,14 +134,13 @@ class Verifier:
                         if ex.feasible(s.pc):
                             pre_states.append(s)
                 for s0 in pre_states:
-                    ex.no_contract_for = target
+                    ex.no_contract_for = None  # only the outermost call is executed; recursion uses the contract
                     fv = FuncV(node, mod, target, cls=ci.name if ci else None)
                     kwargs = dict(values)
                     if "self" in kwargs:
                         fv = fv.bind(kwargs.pop("self"))
                     s0.ghost["entry_pc_len"] = len(s0.pc)
-                    outcomes = ex.inline_call(fv, [], kwargs, s0) if not isinstance(node, ast.AsyncFunctionDef) \
-                        else ex.call(fv, [], kwargs, s0, awaited=True)
+                    outcomes = ex.inline_call(fv, [], kwargs, s0)
                     ex.no_contract_for = None
                     for s, res in outcomes:
                         if not ex.feasible(s.pc):
